@@ -245,7 +245,20 @@ where
             Step::At { idx, mode, probes } => {
                 goto(it, *idx);
                 ops.borrow_mut().push(format!("m~{idx}~{}", MODES[*mode].0));
-                it.set_instrument_mode(im(*mode));
+                // the named shorthands of the iterator trait are the same call
+                if idx % 2 == 0 {
+                    match MODES[*mode].0 {
+                        "before" => it.before(),
+                        "after" => it.after(),
+                        "alternate" => it.alternate(),
+                        "semantic_after" => it.semantic_after(),
+                        "block_entry" => it.block_entry(),
+                        "block_exit" => it.block_exit(),
+                        _ => it.block_alt(),
+                    };
+                } else {
+                    it.set_instrument_mode(im(*mode));
+                }
                 for p in probes {
                     for o in probe_ops(*p) {
                         ops.borrow_mut().push(format!("i~{idx}~{}", crate::optok::tok_of(&o)));
@@ -310,7 +323,20 @@ fn apply_modifier<'a>(m: &mut Module<'a>, fid: FunctionID, plan: &[Step], last: 
         match st {
             Step::At { idx, mode, probes } => {
                 ops.borrow_mut().push(format!("m~{idx}~{}", MODES[*mode].0));
-                fm.set_instrument_mode_at(im(*mode), Location::Module { func_idx: fid, instr_idx: *idx });
+                let loc = Location::Module { func_idx: fid, instr_idx: *idx };
+                if idx % 2 == 0 {
+                    match MODES[*mode].0 {
+                        "before" => fm.before_at(loc),
+                        "after" => fm.after_at(loc),
+                        "alternate" => fm.alternate_at(loc),
+                        "semantic_after" => fm.semantic_after_at(loc),
+                        "block_entry" => fm.block_entry_at(loc),
+                        "block_exit" => fm.block_exit_at(loc),
+                        _ => fm.block_alt_at(loc),
+                    };
+                } else {
+                    fm.set_instrument_mode_at(im(*mode), loc);
+                }
                 for p in probes {
                     for o in probe_ops(*p) {
                         ops.borrow_mut().push(format!("i~{idx}~{}", crate::optok::tok_of(&o)));
